@@ -3,7 +3,7 @@
 -/
 import MTVerif.Lemmas.Basic
 namespace MT
-variable (sub : ClassId → ClassId → Bool)
+variable (sub : ClassId → ClassId → Bool) (ao : Bool)
 
 theorem keysIn_iff (as bs : List (String × Ty)) :
     keysIn as bs = true ↔ ∀ kb ∈ as, (lookupF kb.1 bs).isSome = true := by
@@ -11,7 +11,7 @@ theorem keysIn_iff (as bs : List (String × Ty)) :
 
 mutual
 theorem Ty.eqv_sound : ∀ (a b : Ty), Ty.eqv a b = true → b.wf = true →
-    ∀ v, (conforms sub a v = true ↔ conforms sub b v = true)
+    ∀ v, (conforms sub ao a v = true ↔ conforms sub ao b v = true)
   | .any, b, h, _, v => by cases b <;> simp [Ty.eqv] at h; rfl
   | .cls c, b, h, _, v => by cases b <;> simp [Ty.eqv] at h; subst h; rfl
   | .typeOf c, b, h, _, v => by cases b <;> simp [Ty.eqv] at h; subst h; rfl
@@ -77,7 +77,7 @@ theorem Ty.eqv_sound : ∀ (a b : Ty), Ty.eqv a b = true → b.wf = true →
       constructor
       · exact eqvSub_sound as bs h.1 hw v
       · intro hc
-        obtain ⟨b, hb, hcb⟩ := (conformsAny_iff sub bs v).mp hc
+        obtain ⟨b, hb, hcb⟩ := (conformsAny_iff sub ao bs v).mp hc
         exact eqvAny_sound as b (h.2 b hb) ((wfTL_iff bs).mp hw b hb) v hcb
   | .td r o, b, h, hw, v => by
       cases b <;> simp [Ty.eqv] at h
@@ -93,17 +93,17 @@ theorem Ty.eqv_sound : ∀ (a b : Ty), Ty.eqv a b = true → b.wf = true →
       simp only [Bool.and_eq_true, List.all_eq_true, conformsReq_iff]
       -- field-wise transfer in both directions
       have fwd : ∀ (f f' : List (String × Ty)),
-          (∀ k a, (k, a) ∈ f → ∃ b, lookupF k f' = some b ∧ ∀ v, (conforms sub a v = true ↔ conforms sub b v = true)) →
-          ∀ s x, conformsField sub f s x = true → conformsField sub f' s x = true := by
+          (∀ k a, (k, a) ∈ f → ∃ b, lookupF k f' = some b ∧ ∀ v, (conforms sub ao a v = true ↔ conforms sub ao b v = true)) →
+          ∀ s x, conformsField sub ao f s x = true → conformsField sub ao f' s x = true := by
         intro f f' H s x hc
         rw [conformsField_lookup] at hc ⊢
         obtain ⟨t, ht, hct⟩ := hc
         obtain ⟨b, hb, hiff⟩ := H s t (lookupF_mem s f t ht)
         exact ⟨b, hb, (hiff x).mp hct⟩
       have bwd : ∀ (f f' : List (String × Ty)),
-          (∀ k a, (k, a) ∈ f → ∃ b, lookupF k f' = some b ∧ ∀ v, (conforms sub a v = true ↔ conforms sub b v = true)) →
+          (∀ k a, (k, a) ∈ f → ∃ b, lookupF k f' = some b ∧ ∀ v, (conforms sub ao a v = true ↔ conforms sub ao b v = true)) →
           (∀ kb ∈ f', (lookupF kb.1 f).isSome = true) →
-          ∀ s x, conformsField sub f' s x = true → conformsField sub f s x = true := by
+          ∀ s x, conformsField sub ao f' s x = true → conformsField sub ao f s x = true := by
         intro f f' H hk s x hc
         rw [conformsField_lookup] at hc ⊢
         obtain ⟨t', ht', hct'⟩ := hc
@@ -149,7 +149,7 @@ theorem Ty.eqv_sound : ∀ (a b : Ty), Ty.eqv a b = true → b.wf = true →
             · right; exact bwd o o' HO hko _ _ h1
           · simp at this
 theorem eqvL_sound : ∀ (as bs : List Ty), eqvL as bs = true → wfTL bs = true →
-    ∀ vs, (conformsL sub as vs = true ↔ conformsL sub bs vs = true)
+    ∀ vs, (conformsL sub ao as vs = true ↔ conformsL sub ao bs vs = true)
   | [], bs, h, _, vs => by cases bs <;> simp [eqvL] at h; rfl
   | a :: as, bs, h, hw, vs => by
       cases bs with
@@ -163,7 +163,7 @@ theorem eqvL_sound : ∀ (as bs : List Ty), eqvL as bs = true → wfTL bs = true
           simp only [conformsL, Bool.and_eq_true]
           rw [Ty.eqv_sound a b h.1 hw.1 v, eqvL_sound as bs h.2 hw.2 vs]
 theorem eqvAny_sound : ∀ (as : List Ty) (b : Ty), eqvAny as b = true → b.wf = true →
-    ∀ v, conforms sub b v = true → conformsAny sub as v = true
+    ∀ v, conforms sub ao b v = true → conformsAny sub ao as v = true
   | [], _, h, _, _, _ => by simp [eqvAny] at h
   | a :: as, b, h, hw, v, hc => by
       simp only [eqvAny, Bool.or_eq_true] at h
@@ -172,17 +172,17 @@ theorem eqvAny_sound : ∀ (as : List Ty) (b : Ty), eqvAny as b = true → b.wf 
       · left; exact (Ty.eqv_sound a b h hw v).mpr hc
       · right; exact eqvAny_sound as b h hw v hc
 theorem eqvSub_sound : ∀ (as bs : List Ty), eqvSub as bs = true → wfTL bs = true →
-    ∀ v, conformsAny sub as v = true → conformsAny sub bs v = true
+    ∀ v, conformsAny sub ao as v = true → conformsAny sub ao bs v = true
   | [], _, _, _, _, hc => by simp [conformsAny] at hc
   | a :: as, bs, h, hw, v, hc => by
       simp only [eqvSub, Bool.and_eq_true, List.any_eq_true] at h
       simp only [conformsAny, Bool.or_eq_true] at hc
       rcases hc with hc | hc
       · obtain ⟨b, hb, hab⟩ := h.1
-        exact (conformsAny_iff sub bs v).mpr ⟨b, hb, (Ty.eqv_sound a b hab ((wfTL_iff bs).mp hw b hb) v).mp hc⟩
+        exact (conformsAny_iff sub ao bs v).mpr ⟨b, hb, (Ty.eqv_sound a b hab ((wfTL_iff bs).mp hw b hb) v).mp hc⟩
       · exact eqvSub_sound as bs h.2 hw v hc
 theorem eqvF_sound : ∀ (as bs : List (String × Ty)), eqvF as bs = true → wfTF bs = true →
-    ∀ k a, (k, a) ∈ as → ∃ b, lookupF k bs = some b ∧ ∀ v, (conforms sub a v = true ↔ conforms sub b v = true)
+    ∀ k a, (k, a) ∈ as → ∃ b, lookupF k bs = some b ∧ ∀ v, (conforms sub ao a v = true ↔ conforms sub ao b v = true)
   | [], _, _, _, _, _, hm => by cases hm
   | (k0, a0) :: as, bs, h, hw, k, a, hm => by
       simp only [eqvF, Bool.and_eq_true] at h
